@@ -617,7 +617,14 @@ func botConnScenario(seed int64, id int) []map[string]any {
 				var p pk.Packet
 				log.add(map[string]any{"k": "start", "g": g})
 				err := conn.ReadPacket(&p)
-				log.add(map[string]any{"k": "end", "g": g, "err": err != nil, "v": int(p.ID)})
+				v := int(p.ID)
+				for _, b := range p.Data { // every byte of a payload is its packet's number
+					if int(b) != v&0xff && err == nil {
+						v = -1000 - v // a packet nobody sent (bytes of another packet in it): rejected at this line
+						break
+					}
+				}
+				log.add(map[string]any{"k": "end", "g": g, "err": err != nil, "v": v})
 				if err != nil {
 					return
 				}
@@ -637,7 +644,10 @@ func botConnScenario(seed int64, id int) []map[string]any {
 				runtime.Gosched()
 			}
 			log.add(map[string]any{"k": "send", "v": i})
-			data := make([]byte, r.Intn(200))
+			data := make([]byte, []int{r.Intn(200), 64, 64, 200 - 30*i}[r.Intn(4)]) // random, equal and shrinking sizes
+			for j := range data {
+				data[j] = byte(i)
+			}
 			if err := peer.WritePacket(pk.Packet{ID: int32(i), Data: data}); err != nil {
 				break
 			}
